@@ -155,6 +155,27 @@ func runC10(c *an.Ctx) {
 				}
 			}
 		}
+		if ix, ok := an.Strip(arg).(*ssa.Index); ok && depth < 3 {
+			// element of a local array value (for _, line := range [...]string{...})
+			if ld, ok := ix.X.(*ssa.UnOp); ok && ld.Op == token.MUL {
+				if al, ok := ld.X.(*ssa.Alloc); ok {
+					n := 0
+					an.Instrs(fn, func(x ssa.Instruction) {
+						st, ok := x.(*ssa.Store)
+						if !ok {
+							return
+						}
+						if sia, ok := st.Addr.(*ssa.IndexAddr); ok && sia.X == ssa.Value(al) {
+							n++
+							addLine(fn, at, st.Val, depth+1)
+						}
+					})
+					if n > 0 {
+						return
+					}
+				}
+			}
+		}
 		c.Undecided("R1", an.FuncName(fn)+":opaque-line", at, "snapshot line is neither a constant nor a constant-format Sprintf: "+an.Path(arg))
 	}
 	for _, fn := range fns {
